@@ -389,7 +389,7 @@ Proof. reflexivity. Qed.
 Lemma key_ok_rr : forall (M : name) (l2 : bytes), nm_ok M -> length l2 = 2%nat ->
   key_ok (marker ++ pack M ++ l2) = true.
 Proof.
-  intros M l2 HM Hl. unfold key_ok. rewrite is_prefix_marker_app.
+  intros M l2 HM Hl. unfold key_ok. rewrite rr_marker_eq, is_prefix_marker_app.
   change (skipn 2 (marker ++ pack M ++ l2)) with (pack M ++ l2).
   assert (Hr : rname_ok (S (length (marker ++ pack M ++ l2))) (pack M ++ l2) = true).
   { apply rname_ok_build; [exact HM | exact Hl|]. pose proof (length_pack_ge M). rewrite !app_length. lia. }
